@@ -400,6 +400,22 @@ Definition step1 (w : world) (o : op) : world * out :=
         let '(h, J) := clear_tab dcap (gett w t) (its w) true in
         (put_ti w t (mkHt (PositiveMap.empty node) None None 0 dcap (fresh h) true []) J, ONone)
       else (w, ONone)
+  | OMoveCtor t u =>
+      if valid_t w t && valid_t w u then
+        if t =? u then (w, ONone)
+        else
+          let '(hold, J0) := clear_tab dcap (gett w t) (its w) true in
+          let b := gett w u in
+          let a' := mkHt (nodes b) (hd b) (tl b) (cnt b) (cap b) (fresh b) true (ilist b) in
+          let b' := mkHt (PositiveMap.empty node) None None 0 0 (fresh hold) (asort b) [] in
+          (mkW (upd_nth (upd_nth (tabs w) t a') u b') (set_owners J0 (ilist b) t), ONone)
+      else (w, ONone)
+  | OPrealloc t n =>
+      if valid_t w t then
+        let '(hold, J0) := clear_tab dcap (gett w t) (its w) true in
+        let '(h, J1, _) := ensure_size dcap (mkHt (PositiveMap.empty node) None None 0 0 (fresh hold) true []) J0 n false in
+        (put_ti w t h J1, ONone)
+      else (w, ONone)
   (* ---- iterators *)
   | OIterNew i t bw =>
       if valid_i w i && valid_t w t then
